@@ -9,4 +9,5 @@ def rules(ctx):
     S.c11_rules(ctx)
     S.c01_r8_open_recovery(ctx)
     S.walker_rules(ctx)
+    S.full_range_rules(ctx)
     S.refcount_rules(ctx)
